@@ -1,1 +1,314 @@
-/-! Property theorems for C14 (not built yet). -/
+import Cellml.C14.Overflow
+import Cellml.C14.Roundtrip
+import Cellml.C14.Text
+
+/-! # C14 — every number written in a document reaches the generated code bit for bit.
+
+    Model: `C14.decToBitsL` (exact decimal text → binary64 pattern, one `roundDivEven`), `C14.Source`/`C14.pipeline`
+    (plain `<cn>`, e-notation `<cn>`, `initial_value`; `Quantity._value`, `get_value`, `evalf(FLOAT_PRECISION)` through
+    `sympy.Float`, `float()`), `C14.Emits` (the printer's text). Values are *scaled*: `scaledOfBits b = value · 2^1074`,
+    a natural number, so "`|x − v| ≤ |x − y|`" for `x = num/den` is written cross-multiplied on `Nat`
+    (`dist (num·2^1074) (v·den) ≤ dist (num·2^1074) (y·den)`).
+
+    Every theorem quantifies over ALL texts / rationals / bit patterns. The tie to cellmlmanip, CPython's `float()` and
+    sympy is the bit-exact correspondence check `harness/props/c14.py`. -/
+
+namespace Cellml.Props.C14
+open _root_.C14
+
+/-! ## 1. the rounding core -/
+
+/-- `roundDivEven n d` is within half a unit of `n/d`, even on ties, and the identity on exact multiples. -/
+theorem roundDivEven_correct (n d : Nat) (hd : 0 < d) :
+    (2 * n ≤ 2 * (roundDivEven n d * d) + d ∧ 2 * (roundDivEven n d * d) ≤ 2 * n + d) ∧
+    (2 * (n % d) = d → roundDivEven n d % 2 = 0) ∧
+    (∀ q, roundDivEven (q * d) d = q) :=
+  ⟨roundDivEven_near n d hd, roundDivEven_tie_even n d, fun q => roundDivEven_exact q d hd⟩
+
+/-- no multiple of `d` is closer to `n` than the rounded one -/
+theorem roundDivEven_nearest_multiple (n d k : Nat) (hd : 0 < d) :
+    dist n (roundDivEven n d * d) ≤ dist n (k * d) := roundDivEven_nearest n d k hd
+
+example : (roundDivEven 5 2, roundDivEven 7 2, roundDivEven 9 4, roundDivEven 11 4, roundDivEven 10 4, roundDivEven 12 4)
+    = (2, 4, 2, 3, 2, 3) := by decide
+
+/-! ## 2. `round_nearest`: text → a nearest double, ties to even; subnormals, zero and overflow included -/
+
+/-- exact value of a parsed literal `m · 10^k` as a fraction of naturals -/
+def decNum (m : Nat) (k : Int) : Nat := if 0 ≤ k then m * 10 ^ k.toNat else m
+def decDen (k : Int) : Nat := if 0 ≤ k then 1 else 10 ^ (-k).toNat
+
+theorem decDen_pos (k : Int) : 0 < decDen k := by
+  unfold decDen; split
+  · decide
+  · exact Nat.pow_pos (by decide)
+
+theorem decMag_eq (m : Nat) (k : Int) : decMag m k = ratToBits (decNum m k) (decDen k) := by
+  unfold decMag decNum decDen; split <;> rfl
+
+/-- what `decToBitsL` computes: the parse, then ONE rounding of the exact value `m·10^k`, then the sign bit -/
+theorem decToBitsL_eq (cs : List Char) (neg : Bool) (m : Nat) (k : Int) (hp : parseDecL cs = some (neg, m, k)) :
+    decToBitsL cs = some (withSign neg (ratToBits (decNum m k) (decDen k))) := by
+  unfold decToBitsL; rw [hp]; simp only [decMag_eq]
+
+/-- **round_nearest.** For every rational `num/den ≥ 0` whose rounding does not overflow, the value of
+    `ratToBits num den` is (a) a double, (b) at least as close to `num/den` as EVERY finite double (pattern `c`),
+    (c) within half a unit of the spacing, and (d) even in the last bit when `num/den` is an exact tie. This covers the
+    normal range, the subnormal range and zero alike (the spacing is clamped by truncated subtraction). -/
+theorem round_nearest (num den : Nat) (hd : 0 < den) (hfin : ratToBits num den < infBits) :
+    (∀ c, c < infBits →
+        dist (num * 2 ^ 1074) (scaledOfBits (ratToBits num den) * den)
+          ≤ dist (num * 2 ^ 1074) (scaledOfBits c * den)) ∧
+    2 * dist (num * 2 ^ 1074) (scaledOfBits (ratToBits num den) * den)
+        ≤ den * 2 ^ spacing (num * 2 ^ 1074) den ∧
+    (2 * ((num * 2 ^ 1074) % (den * 2 ^ spacing (num * 2 ^ 1074) den))
+        = den * 2 ^ spacing (num * 2 ^ 1074) den → ratToBits num den % 2 = 0) := by
+  refine ⟨?_, ratToBits_half_unit num den hd hfin, ratToBits_tie_even num den hfin⟩
+  intro c _
+  have ⟨hval, hlt⟩ := decodeScaled_spec c
+  rw [← hval]
+  exact ratToBits_nearest num den hd hfin _ _ hlt
+
+/-- the same for every grid point `m·2^i`, `m < 2^53` — also those beyond the largest double -/
+theorem round_nearest_grid (num den : Nat) (hd : 0 < den) (hfin : ratToBits num den < infBits)
+    (m i : Nat) (hm : m < 2 ^ 53) :
+    dist (num * 2 ^ 1074) (scaledOfBits (ratToBits num den) * den) ≤ dist (num * 2 ^ 1074) (m * 2 ^ i * den) :=
+  ratToBits_nearest num den hd hfin m i hm
+
+/-- **round_nearest for texts**: whatever finite decimal literal is written, `decToBitsL` returns the sign and a
+    nearest double to its exact value `m·10^k` -/
+theorem round_nearest_text (cs : List Char) (neg : Bool) (m : Nat) (k : Int)
+    (hp : parseDecL cs = some (neg, m, k)) (hfin : decMag m k < infBits) :
+    ∃ b, decToBitsL cs = some b ∧ magOf b = decMag m k ∧ isNeg b = neg ∧
+      ∀ c, c < infBits →
+        dist (decNum m k * 2 ^ 1074) (scaledOfBits (magOf b) * decDen k)
+          ≤ dist (decNum m k * 2 ^ 1074) (scaledOfBits c * decDen k) := by
+  have hmag : decMag m k < signBit := by
+    have : infBits < signBit := by decide
+    omega
+  refine ⟨withSign neg (decMag m k), by unfold decToBitsL; rw [hp], ?_, ?_, ?_⟩
+  · unfold withSign magOf; split
+    · rw [Nat.add_mod_left]; exact Nat.mod_eq_of_lt hmag
+    · exact Nat.mod_eq_of_lt hmag
+  · unfold withSign isNeg; cases neg <;> simp <;> omega
+  · have hm : magOf (withSign neg (decMag m k)) = decMag m k := by
+      unfold withSign magOf; split
+      · rw [Nat.add_mod_left]; exact Nat.mod_eq_of_lt hmag
+      · exact Nat.mod_eq_of_lt hmag
+    rw [hm, decMag_eq] at *
+    exact (round_nearest _ _ (decDen_pos k) hfin).1
+
+/-- **overflow edge**: the result is infinity exactly from the halfway point between the largest double and `2^1024`
+    (`overflowThreshold = (2^54 − 1)·2^2044`, scaled) upwards — the IEEE rule, tie to the even side included -/
+theorem round_overflow (num den : Nat) (hd : 0 < den) :
+    ratToBits num den = infBits ↔ overflowThreshold * den ≤ num * 2 ^ 1074 := by
+  constructor
+  · intro h
+    apply Classical.byContradiction; intro hc
+    have := ratToBits_finite_of_lt num den hd (by omega)
+    omega
+  · exact ratToBits_inf_of_ge num den hd
+
+/-- the result is always a finite pattern or exactly +infinity (never a NaN pattern) -/
+theorem ratToBits_le_inf (num den : Nat) : ratToBits num den ≤ infBits := assemble_le_inf _ _
+
+/-- **representable values are fixed points**: a double read from its own exact value is itself -/
+theorem round_representable (b : Nat) (hb : b < infBits) : ratToBits (scaledOfBits b) (2 ^ 1074) = b :=
+  ratToBits_scaledOfBits b hb
+
+-- non-vacuity: ordinary, tie (2^53+1 → even), tie upwards (2^53+3), subnormal, smallest subnormal tie → 0,
+-- largest double, overflow at the threshold, 17-digit shortest form, negative
+example : decToBits "0.1" = some 0x3FB999999999999A := by decide +kernel
+example : decToBits "9007199254740993" = some 0x4340000000000000 := by decide +kernel
+example : decToBits "9007199254740995" = some 0x4340000000000002 := by decide +kernel
+example : decToBits "5e-324" = some 1 := by decide +kernel
+example : decToBits "2.4703282292062327e-324" = some 0 := by decide +kernel
+example : decToBits "2.4703282292062328e-324" = some 1 := by decide +kernel
+example : decToBits "1.7976931348623157e308" = some 0x7FEFFFFFFFFFFFFF := by decide +kernel
+example : decToBits "1.7976931348623158e308" = some 0x7FEFFFFFFFFFFFFF := by decide +kernel
+example : decToBits "1.7976931348623159e308" = some 0x7FF0000000000000 := by decide +kernel
+example : decToBits "0.30000000000000004" = some 0x3FD3333333333334 := by decide +kernel
+example : decToBits " -1.5E+3 " = some 0xC097700000000000 := by decide +kernel
+example : decToBits "1e" = none ∧ decToBits "." = none ∧ decToBits "1_0" = none ∧ decToBits "inf" = none := by
+  decide +kernel
+example : ratToBits 1 10 < infBits ∧ 0 < (10 : Nat) := by decide +kernel
+
+/-! ## 3. `widen_narrow_id`: no double rounding through `sympy.Float` at `FLOAT_PRECISION` -/
+
+/-- sympy's `dps_to_prec` at the translated `FLOAT_PRECISION` gives at least the 53 bits of a double … -/
+theorem floatPrecision_enough : 53 ≤ evalfPrec Cellml.Gen.floatPrecision := by decide +kernel
+
+/-- … and so does the precision of the `Float` built inside `Quantity._eval_evalf` (bits taken as digits) -/
+theorem innerPrecision_enough : 53 ≤ innerPrec Cellml.Gen.floatPrecision := by decide +kernel
+
+/-- the figures observed in sympy 1.14 for `FLOAT_PRECISION = 17` (about the literal 17, not the generated constant:
+    any precision that keeps 53 bits is as good) -/
+theorem precision_bits_at_17 : evalfPrec 17 = 60 ∧ innerPrec 17 = 216 := by decide +kernel
+
+/-- **widen_narrow_id (significands).** Rounding a 53-bit significand to any `p ≥ 53` bits and back to 53 bits is the
+    identity: neither step rounds. -/
+theorem widen_narrow_sig (p m j : Nat) (hp : 53 ≤ p) (hm : m < 2 ^ 53) :
+    roundSig 53 (roundSig p (m, j)) = (m, j) := by
+  rw [roundSig_id_53 p m j hp hm, roundSig_id_53 53 m j (Nat.le_refl _) hm]
+
+/-- **widen_narrow_id.** `float(quantity.evalf(FLOAT_PRECISION))` — the double widened to `sympy.Float`'s 216 bits,
+    re-rounded to 64 and then to 60 bits by `evalf`, re-rounded to 53 bits by `float()`, handed to `ldexp` — is the double it started from, bit for bit, for
+    every finite non-zero double. Stated over the GENERATED constant: a `FLOAT_PRECISION` below 15 digits
+    (`dps_to_prec 14 = 50`) makes `floatPrecision_enough` fail to compile. -/
+theorem widen_narrow_id (b : Nat) (hb : b < 2 ^ 64) (hfin : isFiniteBits b = true) (hnz : magOf b ≠ 0) :
+    strippedValue b = b :=
+  evalfStage_id_of_prec _ b innerPrecision_enough floatPrecision_enough hb hfin hnz
+
+/-- `+0.0` is also preserved (it becomes sympy's `Zero`, printed `0`, read back as `+0.0`) -/
+theorem widen_narrow_zero : strippedValue 0 = 0 := by decide +kernel
+
+/-- the threshold is sharp: `dps_to_prec` gives 53 bits at 15 digits and only 50 at 14 … -/
+theorem dpsToPrec_table : dpsToPrec 13 = 47 ∧ dpsToPrec 14 = 50 ∧ dpsToPrec 15 = 53 ∧ dpsToPrec 16 = 56 ∧
+    dpsToPrec 17 = 60 ∧ dpsToPrec 64 = 216 := by decide +kernel
+
+/-- … and at 14 digits the stage does round (`0.1` loses its last bits): the hypothesis `53 ≤ precision` is needed -/
+theorem evalf_rounds_at_14 : evalfStage 14 0x3FB999999999999A = 0x3FB9999999999998 := by decide +kernel
+
+example : strippedValue 0x3FB999999999999A = 0x3FB999999999999A := by decide +kernel
+example : strippedValue 0x8000000000000001 = 0x8000000000000001 := by decide +kernel   -- −(smallest subnormal)
+example : strippedValue 0x7FEFFFFFFFFFFFFF = 0x7FEFFFFFFFFFFFFF := by decide +kernel   -- largest double
+
+/-! ## 4. `pipeline_id`: every stage is the identity on bit patterns -/
+
+theorem withSign_lt (neg : Bool) (mag : Nat) (h : mag ≤ infBits) : withSign neg mag < 2 ^ 64 := by
+  have : infBits < 2 ^ 63 := by decide
+  unfold withSign signBit; split <;> omega
+
+theorem decToBitsL_lt (cs : List Char) (b : Nat) (h : decToBitsL cs = some b) : b < 2 ^ 64 := by
+  unfold decToBitsL at h
+  split at h
+  · cases h
+  · rename_i neg m k _
+    simp only [Option.some.injEq] at h
+    subst h
+    apply withSign_lt
+    rw [decMag_eq]; exact ratToBits_le_inf _ _
+
+theorem sourceBits_lt (s : Source) (b : Nat) (h : sourceBits s = some b) : b < 2 ^ 64 := by
+  cases s with
+  | plain t => exact decToBitsL_lt _ b h
+  | initial t => exact decToBitsL_lt _ b h
+  | enotation m e =>
+    simp only [sourceBits, cnENotation] at h
+    split at h
+    · cases h
+    · exact decToBitsL_lt _ b h
+
+/-- every source is ONE call of the text → double conversion on ONE text (`sourceText`) -/
+theorem source_is_one_parse (s : Source) : sourceBits s = (sourceText s).bind decToBitsL := by
+  cases s with
+  | plain t => rfl
+  | initial t => rfl
+  | enotation m e =>
+    simp only [sourceBits, sourceText, cnENotation]
+    cases parseIntL e <;> rfl
+
+/-- the stages that store and return the Python float (`Quantity._value`, `float(quantity)`, `get_value`) are the
+    identity for EVERY literal, no exception -/
+theorem pipeline_quantity_id (s : Source) (b : Nat) (h : sourceBits s = some b) :
+    ∃ o, pipeline s = some o ∧ o.quantity = b ∧ o.getValue = b := by
+  unfold pipeline; rw [h]; exact ⟨_, rfl, rfl, rfl⟩
+
+/-- **pipeline_id** (`_partial`: all literals except those whose nearest double is `-0.0`). For every way of writing a
+    number — plain `<cn>`, e-notation `<cn>`, `initial_value` — whose nearest double `b` is finite and not the negative
+    zero, every stage returns `b`: the composite is `decToBitsL` of the source text. -/
+theorem pipeline_id_partial (s : Source) (b : Nat) (h : sourceBits s = some b)
+    (hfin : isFiniteBits b = true) (hnz : b ≠ signBit) :
+    pipeline s = some { quantity := b, getValue := b, stripped := b } := by
+  unfold pipeline; rw [h]
+  simp only [Option.map_some, quantityValue, getValue, Option.some.injEq, Observed.mk.injEq, true_and]
+  have hb := sourceBits_lt s b h
+  by_cases hz : magOf b = 0
+  · -- a zero magnitude that is not the negative zero is +0.0
+    have : b = 0 := by
+      unfold magOf signBit at *
+      omega
+    subst this; exact widen_narrow_zero
+  · exact widen_narrow_id b hb hfin hz
+
+/-- … and whatever text the printer emits for the stripped number — any text that `float()` reads back as that
+    double, `str(float)` being one — denotes the double of the source text: the generated code holds the same bits. -/
+theorem generated_code_bits (s : Source) (b : Nat) (text : List Char) (h : sourceBits s = some b)
+    (hfin : isFiniteBits b = true) (hnz : b ≠ signBit)
+    (o : Observed) (ho : pipeline s = some o) (hemit : Emits o.stripped text) :
+    decToBitsL text = sourceBits s := by
+  rw [pipeline_id_partial s b h hfin hnz] at ho
+  cases ho
+  rw [h]; exact hemit
+
+/-- the excluded case is real (known finding `negative-zero-sign-lost`): the literal `-0.0` keeps its sign in the
+    Quantity and in `get_value`, and loses it in the unit-stripped equation (sympy has no signed zero) -/
+theorem pipeline_negzero_sign_lost :
+    sourceBits (.plain "-0.0".toList) = some signBit ∧
+    pipeline (.plain "-0.0".toList) = some { quantity := signBit, getValue := signBit, stripped := 0 } := by
+  decide +kernel
+
+/-- so the unrestricted statement is false of the code as it is -/
+theorem pipeline_id_full_fails :
+    ¬ (∀ s b, sourceBits s = some b → isFiniteBits b = true →
+        pipeline s = some { quantity := b, getValue := b, stripped := b }) := by
+  intro h
+  have h1 := h (.plain "-0.0".toList) signBit pipeline_negzero_sign_lost.1 (by decide +kernel)
+  rw [pipeline_negzero_sign_lost.2] at h1
+  revert h1; decide +kernel
+
+example : pipeline (.plain " 0.1 ".toList)
+    = some { quantity := 0x3FB999999999999A, getValue := 0x3FB999999999999A, stripped := 0x3FB999999999999A } := by
+  decide +kernel
+example : pipeline (.initial "4.9e-324".toList) = some { quantity := 1, getValue := 1, stripped := 1 } := by
+  decide +kernel
+example : Emits 0x3FB999999999999A "0.1".toList ∧ Emits 0x3FB999999999999A "0.1000000000000000055511151231257827".toList := by
+  unfold Emits; decide +kernel
+
+/-! ## 5. `enotation_single`: `m<sep/>e` is rounded once -/
+
+/-- **enotation_single.** For every mantissa (optional sign, digits, optional point and digits, blanks around it) and
+    every exponent text that Python's `int()` reads as `z`, the e-notation `<cn>` is the double nearest to the EXACT
+    product `mantissa × 10^z`: the text `mantissa ++ "e" ++ '%d' % z` is parsed as one literal with significand
+    `m.digits` and decimal exponent `z − (number of fraction digits)`, and rounded once (`decMag` is one `ratToBits`). -/
+theorem enotation_single (m : Mantissa) (mant expo : List Char) (z : Int)
+    (hm : strip mant = m.chars) (he : parseIntL expo = some z) :
+    cnENotation mant expo = some (withSign m.sign.neg (decMag m.digits (z - (m.fp.length : Int)))) := by
+  unfold cnENotation enotationText decToBitsL parseDecL
+  rw [he, hm]
+  simp only
+  rw [strip_mantissa_exp m z, parseBody_mantissa_exp m z]
+
+/-- the exact value that is rounded: `digits · 10^(z − f)`; the mantissa alone is `digits · 10^(−f)` — so the
+    e-notation value is the mantissa's exact value times `10^z`, never the mantissa's *rounded* value -/
+theorem enotation_value (m : Mantissa) (z : Int) :
+    parseBody (m.chars ++ 'e' :: renderInt z) = some (m.sign.neg, m.digits, z - (m.fp.length : Int)) ∧
+    parseBody m.chars = some (m.sign.neg, m.digits, 0 - (m.fp.length : Int)) :=
+  ⟨parseBody_mantissa_exp m z, parseBody_mantissa m⟩
+
+/-- `'%d' % z` is read back as `z` by the literal's exponent part -/
+theorem exponent_roundtrip (z : Int) : parseExpPart ('e' :: renderInt z) = some z := parseExpPart_render z
+
+/-- **contrast.** A two-step reading `float(mantissa) * 10**exponent` rounds twice and is NOT always the same double:
+    `0.14<sep/>1` is `1.4 = 0x3FF6666666666666`, the two-step product is `0x3FF6666666666667`. -/
+theorem two_step_differs :
+    cnENotation "0.14".toList "1".toList = some 0x3FF6666666666666 ∧
+    twoStep "0.14".toList 1 = some 0x3FF6666666666667 := by decide +kernel
+
+/-- a concrete mantissa meeting the hypotheses of `enotation_single`: `-12.5` -/
+def exampleMantissa : Mantissa where
+  sign := .minus
+  ip := ['1', '2']
+  dot := true
+  fp := ['5']
+  hip := by intro c hc; simp only [List.mem_cons, List.not_mem_nil, or_false] at hc; rcases hc with h | h <;> (subst h; decide)
+  hfp := by intro c hc; simp only [List.mem_cons, List.not_mem_nil, or_false] at hc; subst hc; decide
+  hne := Or.inl (by simp)
+  hdot := by intro h; cases h
+
+example : strip " -12.5 ".toList = exampleMantissa.chars ∧ parseIntL " +07 ".toList = some 7 := by decide +kernel
+example : cnENotation " -12.5 ".toList " +07 ".toList = some 0xC19DCD6500000000 := by decide +kernel
+example : cnENotation "8.5".toList "-324".toList = some 2 := by decide +kernel
+example : cnENotation "1e2".toList "3".toList = none := by decide +kernel      -- `1e2e3` is no literal
+
+end Cellml.Props.C14
